@@ -312,6 +312,82 @@ fn history(rng: &mut Rng, len: usize) -> Case {
             run.poll();
         }
     }
+    if rng.chance(1, 4) {
+        // presences flipping around a cancel / re-request of one CID, ending with a refresh: HAVE -> WANT_BLOCK sent ->
+        // cancel -> DONT_HAVE (or HAVE again) -> wanted again before the next wantlist is generated -> full wantlist
+        tags.push("prelude/presence_flip".into());
+        if run.conns[0].is_empty() {
+            run.new_conn(0);
+        }
+        let (c, _) = cids[rng.usize(ncids)].clone();
+        let q = run.get(Some(&c));
+        issued.push(q);
+        for (p, conn, _) in run.poll() {
+            run.report(p, conn, 0);
+        }
+        while let Some((id, _)) = run.open_calls.first().cloned() {
+            run.release(id, Release::Miss);
+        }
+        for (p, conn, _) in run.poll() {
+            run.report(p, conn, 0);
+        }
+        run.incoming(0, vec![(c, true)], vec![]);
+        // the update carrying the WANT_BLOCK: either completes at once or stays in flight (acknowledged, not finished)
+        // while the query is cancelled, the peer answers again and the CID is asked for again
+        let blocked = rng.chance(1, 2);
+        let mut in_flight = vec![];
+        for (p, conn, _) in run.poll() {
+            if blocked {
+                run.report(p, conn, 1);
+                in_flight.push((p, conn));
+            } else {
+                run.report(p, conn, 0);
+            }
+        }
+        if blocked {
+            tags.push("prelude/presence_flip_in_flight".into());
+            run.cancel(q);
+            run.incoming(0, vec![(c, rng.chance(1, 4))], vec![]);
+            let q3 = run.get(Some(&c));
+            issued.push(q3);
+            run.poll();
+            while let Some((id, _)) = run.open_calls.first().cloned() {
+                run.release(id, Release::Miss);
+            }
+            run.poll();
+            for (p, conn) in in_flight {
+                run.report(p, conn, if rng.chance(1, 5) { 3 } else { 0 });
+            }
+            run.advance(if rng.chance(2, 3) { 30_000 } else { 10 });
+            for (p, conn, _) in run.poll() {
+                run.report(p, conn, 0);
+            }
+        }
+        if rng.chance(3, 4) {
+            run.cancel(q);
+        }
+        if rng.chance(1, 3) {
+            for (p, conn, _) in run.poll() {
+                run.report(p, conn, 0);
+            }
+        }
+        run.incoming(0, vec![(c, rng.chance(1, 4))], vec![]);
+        let q2 = run.get(Some(&c));
+        issued.push(q2);
+        if rng.chance(1, 2) {
+            run.poll();
+            while let Some((id, _)) = run.open_calls.first().cloned() {
+                run.release(id, Release::Miss);
+            }
+        }
+        if rng.chance(2, 3) {
+            run.advance(30_000);
+        }
+        for (p, conn, _) in run.poll() {
+            run.report(p, conn, 0);
+        }
+        run.poll();
+    }
     for _ in 0..len {
         match rng.below(40) {
             0..=3 => {
